@@ -625,12 +625,17 @@ class PureInterp:
                    for d in getattr(finfo.node, "decorator_list", []) if isinstance(d.func if isinstance(d, ast.Call) else d, (ast.Name, ast.Attribute))):
                 return Obj("genctx", gen=gen)      # a context manager made from a generator function
             return gen
+        # the stack of interpreted function calls (for witnesses that model sys._getframe / inspect.stack)
+        frames = self.__dict__.setdefault("frames", [])
+        frames.append(finfo)
         try:
             self.block(finfo.node.body, env, finfo.module, depth)
         except _Return as r:
             return r.value
         except RecursionError:
             raise Unsupported("unbounded recursion")
+        finally:
+            frames.pop()
         return None
 
     def _is_generator(self, finfo):
@@ -1395,6 +1400,15 @@ class PureInterp:
             return o.maps
         if ("getattr:" + n.attr) in self.hooks:
             return self.hooks["getattr:" + n.attr](o)
+        if type(o).__name__ == "GraphTok":
+            # a witness' graph (a list of targets whose relations the witness supplies): the helper methods of the package's Graph class (dfs, endpoints, ...) work on it
+            try:
+                gcls = self.index.cls("gwf.core:Graph")
+                mth = self.index.method(gcls, n.attr)
+            except Exception:
+                mth = None
+            if mth is not None:
+                return ("bound", mth, o)
         if isinstance(o, EnumVal):
             if n.attr == "name":
                 return o.member
@@ -1502,6 +1516,28 @@ class PureInterp:
         l = self.eval(n.left, env, module, depth)
         for op, c in zip(n.ops, n.comparators):
             r = self.eval(c, env, module, depth)
+            if isinstance(op, (ast.In, ast.NotIn)) and (isinstance(r, Obj) or type(r).__name__ == "GraphTok"):
+                # membership in an object of the package: its class's __contains__, else its __iter__ (as Python does)
+                if isinstance(r, Obj):
+                    dm, dit = self._dunder(r, "__contains__"), self._dunder(r, "__iter__")
+                else:
+                    try:
+                        gcls_ = self.index.cls("gwf.core:Graph")
+                        dm, dit = self.index.method(gcls_, "__contains__"), None
+                    except Exception:
+                        dm = dit = None
+                if dm is not None:
+                    found = self.truth(self.call(dm, (l,), {}, self_obj=r, depth=depth + 1))
+                elif dit is not None:
+                    found = any(x is l or x == l for x in self.call(dit, (), {}, self_obj=r, depth=depth + 1))
+                elif isinstance(r, Obj):
+                    raise Raised("TypeError", f"argument of type '{r._name}' is not iterable")
+                else:
+                    found = l in r
+                if found != isinstance(op, ast.In):
+                    return False
+                l = r
+                continue
             try:
                 ok = {
                     ast.Eq: lambda: l == r, ast.NotEq: lambda: l != r, ast.In: lambda: l in r, ast.NotIn: lambda: l not in r,
